@@ -109,6 +109,8 @@ def check_one(J, u, norm_eps, reg_eps, dtype, which, key=None):
         return dict(sig=f"bad-output-type:{which}", msg=f"dtype={x.dtype} shape={tuple(x.shape)} weighting calls={len(got)}"), {}, False, "exc"
     w = got[0].double().numpy()
     x = x.double().numpy()
+    if not (np.isfinite(x).all() and np.isfinite(w).all()):
+        return dict(sig=f"non-finite-output:{which}", msg=f"J={J.tolist()} u={u} eps=({norm_eps},{reg_eps}) {dtype}: x={x.tolist()} w={w.tolist()}"[:400]), {}, False, "exc"
     s = A.sigma_max(Jd)
     f32 = dtype == "float32"
     w_ref, res = _ref(which, Jd, uu, u is None, norm_eps, reg_eps, key if key is not None else (Jd.tobytes(), uu.tobytes()))
@@ -131,27 +133,28 @@ def check_one(J, u, norm_eps, reg_eps, dtype, which, key=None):
     mg["combine"] = ec / tol_comb
     viol = None
     desc = f"J={J.tolist()} u={None if u is None else list(u)} eps=({norm_eps},{reg_eps}) {dtype} s={s:.3g}"
-    if ex > tol_x:
+    if not (ex <= tol_x):
         viol = dict(sig=f"output-mismatch:{which}", msg=f"{desc}: x={x.tolist()} ref={x_ref.tolist()} err/tol={ex / tol_x:.3g}")
-    elif not f32 and ew > tol_w:
+    elif not f32 and not (ew <= tol_w):
         viol = dict(sig=f"weights-mismatch:{which}", msg=f"{desc}: w={w.tolist()} ref={w_ref.tolist()} err/tol={ew / tol_w:.3g}")
-    elif ec > tol_comb:
+    elif not (ec <= tol_comb):
         viol = dict(sig=f"not-the-combination-of-its-weights:{which}", msg=f"{desc}: x={x.tolist()} w@J={(Jd.T @ w).tolist()}")
     # corollaries, checked literally. "Exactly" is decided up to the conditioning 1/reg_eps of the QP.
-    G = Jd @ Jd.T
+    Jn = Jd / s if s > 0 else Jd  # sign pattern of the Gramian, computed without overflow at extreme scales
+    G = Jn @ Jn.T
     xu = Jd.T @ uu
     usc = max(1.0, float(np.abs(uu).max()))
     tol_c = ((1e-13 + 1e-15 / reg_eps) if not f32 else 1e-5) * ssc * usc
     if viol is None and s >= norm_eps and (G >= 0).all():
         e = float(np.abs(x - xu).max())
         mg["noconflict"] = e / tol_c
-        if e > tol_c:
+        if not (e <= tol_c):
             viol = dict(sig=f"no-conflict-not-JTu:{which}", msg=f"{desc}: x={x.tolist()} JTu={xu.tolist()}")
     if viol is None and s < norm_eps:
         tol_b = (1e-13 if not f32 else 1e-5) * ssc * usc
         e = float(np.abs(x - xu).max())
         mg["belownorm"] = e / tol_b
-        if e > tol_b:
+        if not (e <= tol_b):
             viol = dict(sig=f"below-norm-eps-not-JTu:{which}", msg=f"{desc}: x={x.tolist()} JTu={xu.tolist()}")
     nontrivial = s >= norm_eps and bool((G < 0).any())
     return viol, mg, nontrivial, digest(np.round(w_ref / wsc, 6).tolist())
@@ -171,6 +174,10 @@ def _configs(J0, fam):
                 configs.append((1.0, None, u, ne, re_, "float64"))
             for u in (None, P[-1], P[-2]):
                 configs.append((ne * 10, None, u, ne, re_, "float64"))
+            if k == 0:  # extreme global scales, where squaring the matrix before normalising it would overflow / underflow
+                for u in (None, P[-2]):
+                    configs.append((1e160, None, u, ne, re_, "float64"))
+                    configs.append((1e20, None, u, ne, re_, "float32"))
             if re_ >= 1e-4:  # float32: reg_eps must dominate the rounding error of the float32 Gramian (DESIGN C03)
                 configs.append((ne * 10, None, None, ne, re_, "float32"))
                 configs.append((1.0, None, P[-1], ne, re_, "float32"))
@@ -184,9 +191,45 @@ def _configs(J0, fam):
     return configs
 
 
+def _reuse_check(mats, viol):
+    """One instance per aggregator with an explicit float64 preference vector, reused over all matrices of the block: every result
+    must be bit-identical to a new instance's, and the user's preference tensor must not be modified."""
+    import torch
+    from torchjd.aggregation import DualProj, UPGrad
+
+    execs = 0
+    m = mats[0].shape[0]
+    if m < 2:
+        return 0
+    p0 = A.pref_vectors(m)[-2]
+    for cls in (DualProj, UPGrad):
+        pref = torch.tensor(p0, dtype=torch.float64)
+        before = pref.numpy().tobytes()
+        agg = cls(pref_vector=pref)
+        for J in mats:
+            if not np.any(J):
+                continue
+            Jt = torch.tensor(J, dtype=torch.float64)
+            try:
+                x = agg(Jt).numpy()
+                y = cls(pref_vector=torch.tensor(p0, dtype=torch.float64))(Jt).numpy()
+            except Exception:
+                continue  # reported by the main loop
+            execs += 2
+            if pref.numpy().tobytes() != before:
+                viol.append(dict(sig=f"pref-vector-modified:{cls.__name__}", msg=f"{cls.__name__}: the user's pref_vector {p0.tolist()} became {pref.tolist()} after a call on J={J.tolist()}"))
+                break
+            if x.tobytes() != y.tobytes():
+                viol.append(dict(sig=f"result-depends-on-earlier-calls:{cls.__name__}", msg=f"{cls.__name__}(pref={p0.tolist()}) reused: J={J.tolist()} gives {x.tolist()}, a new instance gives {y.tolist()}"))
+                break
+    return execs
+
+
 def run_case(case):
     mats = _matrices(case)
     viol, outcomes, execs, nontriv, dropped, margin, maxima = [], set(), 0, 0, 0, 0.0, {}
+    if case["fam"] == "eps":
+        execs += _reuse_check(mats, viol)
     for mi, J0 in enumerate(mats):
         for ci, (t, c, u, ne, re_, dtype) in enumerate(_configs(J0, case["fam"])):
             J = J0.copy()
